@@ -376,6 +376,28 @@ func (c *Chain) StateString() string {
 	return strings.Join(parts, ",")
 }
 
+// DiffString renders the block diff (TState.ChangedKeys), sorted: `k=v`, `k=~` for a delete.
+func (c *Chain) DiffString() string {
+	ch := c.TS.ChangedKeys()
+	ks := make([]string, 0, len(ch))
+	for k := range ch {
+		ks = append(ks, k)
+	}
+	sort.Strings(ks)
+	parts := make([]string, 0, len(ks))
+	for _, k := range ks {
+		if ch[k].IsNothing() {
+			parts = append(parts, verifh.Hex([]byte(k))+"=~")
+		} else {
+			parts = append(parts, verifh.Hex([]byte(k))+"="+verifh.Hex(ch[k].Value()))
+		}
+	}
+	if len(parts) == 0 {
+		return "none"
+	}
+	return strings.Join(parts, ",")
+}
+
 // Storage mimics the fetcher: the values of the declared keys as found in the parent view.
 func (c *Chain) Storage(keys state.Keys) state.ImmutableStorage {
 	st := make(map[string][]byte, len(keys))
